@@ -1,6 +1,7 @@
 #!/bin/bash
 # seed_matrix.sh: apply every kept seeded change to /repo in turn, run the relevant checks (quick tier), undo; results -> /verif/seeded/RESULTS.tsv
 set -u
+export VERIF_EVIDENCE_DIR=/tmp/wt/evidence_scratch
 OUT=/verif/seeded/RESULTS.tsv
 : > $OUT
 run() { # seed checks...
